@@ -1,198 +1,6 @@
-import Ptn.C03.Model
-import Ptn.C03.Lemmas
-import Ptn.Common.AnalysisIso
-/-! Property theorems for C03 (canonical form): the bookkeeping that makes every non-centre tensor
-an isometry toward the centre.  The numerical content (a QR factor Q is an isometry, the product
-QR is the tensor) is the contract of `numpy.linalg.qr`; compositions of isometries are isometries
-(`Ptn.Analysis`).  Here: *which* tensor ends up pointing *where*, for every distance table. -/
-namespace Ptn.C03
-
-/-- Distance of a node (0 when absent). -/
-def key (dist : Dist) (n : Nat) : Nat := (lookup dist n).getD 0
-
-theorem lookup_of_mem (dist : Dist) (hkeys : (dist.map (·.1)).Nodup) (n d : Nat)
-    (h : (n, d) ∈ dist) : lookup dist n = some d := by
-  induction dist with
-  | nil => simp at h
-  | cons p rest ih =>
-    rw [List.map_cons] at hkeys
-    have hk := List.nodup_cons.mp hkeys
-    rcases List.mem_cons.mp h with heq | hmem
-    · subst heq; simp [lookup]
-    · have hne : p.1 ≠ n := by
-        intro he
-        apply hk.1
-        rw [he]
-        exact List.mem_map_of_mem (f := (·.1)) hmem
-      have : (p.1 == n) = false := by simp [hne]
-      simp only [lookup, List.find?_cons, this]
-      exact ih hk.2 hmem
-
-/-- The operations of `canonical_form` are sorted by non-increasing distance of the split node:
-    the farthest nodes are processed first. -/
-theorem canon_sorted (dist : Dist) (nbrs : Nat → List Nat) (hkeys : (dist.map (·.1)).Nodup) :
-    (canonOps dist nbrs).Pairwise fun a b => key dist b.node ≤ key dist a.node := by
-  unfold canonOps
-  rw [List.pairwise_flatMap]
-  constructor
-  · intro k _
-    apply List.pairwise_of_forall_mem_list
-    intro a ha b hb
-    have h1 := lookup_of_mem dist hkeys _ _ (mem_opsAt ha).1
-    have h2 := lookup_of_mem dist hkeys _ _ (mem_opsAt hb).1
-    simp [key, h1, h2]
-  · rw [List.pairwise_reverse]
-    apply List.Pairwise.imp _ List.pairwise_lt_range
-    intro k1 k2 hlt x hx y hy
-    have h1 := lookup_of_mem dist hkeys _ _ (mem_opsAt hx).1
-    have h2 := lookup_of_mem dist hkeys _ _ (mem_opsAt hy).1
-    simp [key, h1, h2]; omega
-
-/-- Every node is split at most once. -/
-theorem canon_nodup (dist : Dist) (nbrs : Nat → List Nat) (hkeys : (dist.map (·.1)).Nodup) :
-    ((canonOps dist nbrs).map Op.node).Nodup := by
-  rw [List.nodup_iff_pairwise_ne, List.pairwise_map]
-  unfold canonOps
-  rw [List.pairwise_flatMap]
-  constructor
-  · intro k _
-    unfold opsAt
-    apply List.Pairwise.filterMap (R := fun p q : Nat × Nat => p.1 ≠ q.1)
-    · intro p q hpq a ha b hb
-      cases hc : closest dist (nbrs p.1) <;> simp [hc] at ha
-      cases hd : closest dist (nbrs q.1) <;> simp [hd] at hb
-      subst ha; subst hb; exact hpq
-    · apply List.Pairwise.filter
-      exact List.pairwise_map.mp (List.nodup_iff_pairwise_ne.mp hkeys)
-  · rw [List.pairwise_reverse]
-    apply List.Pairwise.imp _ List.pairwise_lt_range
-    intro k1 k2 hlt x hx y hy heq
-    have h1 := lookup_of_mem dist hkeys _ _ (mem_opsAt hx).1
-    have h2 := lookup_of_mem dist hkeys _ _ (mem_opsAt hy).1
-    rw [heq, h2] at h1
-    have : k1 + 1 = k2 + 1 := by simpa using h1
-    omega
-
-/-- **Gauge theorem.**  Assume the table has distinct keys and every node at distance `d ≥ 1` has
-    its closest neighbour at distance `d - 1` (true of the distance table of a tree).  Then after
-    all operations of `canonical_form` every split node is recorded as an isometry toward its
-    closest neighbour — later operations never absorb into it again — and a node at distance 0
-    (the centre) carries no isometry record. -/
-theorem canon_gauge (dist : Dist) (nbrs : Nat → List Nat) (hkeys : (dist.map (·.1)).Nodup)
-    (htree : ∀ o ∈ canonOps dist nbrs, key dist o.target < key dist o.node) :
-    (∀ o ∈ canonOps dist nbrs,
-        applyOps (fun _ => none) (canonOps dist nbrs) o.node = some o.target) ∧
-    (∀ c, (c, 0) ∈ dist → applyOps (fun _ => none) (canonOps dist nbrs) c = none) := by
-  constructor
-  · exact gauge_sorted (key dist) _ _ (canon_nodup dist nbrs hkeys) (canon_sorted dist nbrs hkeys)
-      htree
-  · intro c hc
-    apply gauge_centre
-    · intro o ho heq
-      unfold canonOps at ho
-      rw [List.mem_flatMap] at ho
-      obtain ⟨k, _, hk⟩ := ho
-      have h1 := lookup_of_mem dist hkeys _ _ (mem_opsAt hk).1
-      have h2 := lookup_of_mem dist hkeys _ _ hc
-      rw [heq, h2] at h1
-      simp at h1
-    · rfl
-
-/-- A centre move along a path records one QR per hop; afterwards every node of the path except
-    the last points to its successor and the last node is the (record-free) centre. -/
-theorem move_gauge (dir : Nat → Option Nat) (path : List Nat) (hnd : path.Nodup) :
-    ∀ i (hi : i + 1 < path.length),
-      applyOps dir (moveOps path) path[i] = some path[i + 1] := by
-  induction path generalizing dir with
-  | nil => intro i hi; simp at hi
-  | cons a rest ih =>
-    cases rest with
-    | nil => intro i hi; simp at hi
-    | cons b rest' =>
-      intro i hi
-      have hnd' := List.nodup_cons.mp hnd
-      simp only [moveOps, applyOps_cons]
-      cases i with
-      | zero =>
-        simp only [List.getElem_cons_zero, List.getElem_cons_succ]
-        rw [applyOps_untouched]
-        · simp [applyOp]
-        · -- later hops touch only nodes of `b :: rest'`, none of which is `a`
-          intro p hp
-          have key : ∀ (l : List Nat) (p : Op), p ∈ moveOps l → p.node ∈ l ∧ p.target ∈ l := by
-            intro l
-            induction l with
-            | nil => intro p hp; simp [moveOps] at hp
-            | cons x xs ihx =>
-              cases xs with
-              | nil => intro p hp; simp [moveOps] at hp
-              | cons y ys =>
-                intro p hp
-                simp only [moveOps, List.mem_cons] at hp
-                rcases hp with rfl | hp
-                · simp
-                · have := ihx p hp
-                  exact ⟨by simp [this.1], by simp [this.2]⟩
-          have := key _ p hp
-          exact ⟨fun h => hnd'.1 (h ▸ this.1), fun h => hnd'.1 (h ▸ this.2)⟩
-      | succ j =>
-        simp only [List.getElem_cons_succ]
-        have := ih (applyOp dir ⟨a, b⟩) hnd'.2 j (by simpa using hi)
-        simpa using this
-
-theorem move_final_centre (c : Nat) (path : List Nat) (x : Nat) :
-    finalCentre c (path ++ [x]) = x := by
-  simp [finalCentre]
-
-/-! ### From the gauge record to linear algebra (instances of `Ptn.Analysis`, Mathlib)
-
-`canon_gauge` says every non-centre tensor is a QR factor `Q` toward the centre; by the contract of
-`numpy.linalg.qr` each is an isometry.  The embedding of the centre tensor into the full state is
-built from these by products and Kronecker products. -/
-
-open Matrix in
-/-- Composition of isometries along a branch is an isometry. -/
-theorem env_isometry_compose {l m n : Type} [Fintype l] [Fintype m] [Fintype n] [DecidableEq m]
-    [DecidableEq n] (A : Matrix l m ℂ) (B : Matrix m n ℂ) (hA : Aᴴ * A = 1) (hB : Bᴴ * B = 1) :
-    (A * B)ᴴ * (A * B) = 1 :=
-  Ptn.Analysis.isometry_mul A B hA hB
-
-open Matrix Kronecker in
-/-- Independent branches combine by the Kronecker product, again an isometry. -/
-theorem env_isometry_kron {l m p q : Type} [Fintype l] [Fintype m] [Fintype p] [Fintype q]
-    [DecidableEq m] [DecidableEq q] (A : Matrix l m ℂ) (B : Matrix p q ℂ)
-    (hA : Aᴴ * A = 1) (hB : Bᴴ * B = 1) : (A ⊗ₖ B)ᴴ * (A ⊗ₖ B) = 1 :=
-  Ptn.Analysis.isometry_kronecker A B hA hB
-
-open Matrix in
-/-- **Consequently the norm obtained from the centre tensor alone equals the norm of the full
-    state** (`E` = embedding of the centre tensor, `v` = centre tensor as a vector). -/
-theorem centre_norm_eq_full_norm {l m : Type} [Fintype l] [Fintype m] [DecidableEq m]
-    (E : Matrix l m ℂ) (hE : Eᴴ * E = 1) (v : m → ℂ) :
-    star (E *ᵥ v) ⬝ᵥ (E *ᵥ v) = star v ⬝ᵥ v :=
-  Ptn.Analysis.isometry_norm E hE v
-
-open Matrix in
-/-- Shape-keeping mode: zero-padding `Q` and `R` leaves the product unchanged and makes `Q` a
-    partial isometry (its Gram matrix is an orthogonal projector). -/
-theorem keep_mode_padding {l m n p : Type} [Fintype l] [Fintype m] [Fintype n] [Fintype p]
-    [DecidableEq m] (Q : Matrix l m ℂ) (T : Matrix m n ℂ) (hQ : Qᴴ * Q = 1) :
-    fromCols Q (0 : Matrix l p ℂ) * fromRows T (0 : Matrix p n ℂ) = Q * T ∧
-    ((fromCols Q (0 : Matrix l p ℂ))ᴴ * fromCols Q (0 : Matrix l p ℂ)) *
-      ((fromCols Q (0 : Matrix l p ℂ))ᴴ * fromCols Q (0 : Matrix l p ℂ))
-        = (fromCols Q (0 : Matrix l p ℂ))ᴴ * fromCols Q (0 : Matrix l p ℂ) ∧
-    ((fromCols Q (0 : Matrix l p ℂ))ᴴ * fromCols Q (0 : Matrix l p ℂ))ᴴ
-        = (fromCols Q (0 : Matrix l p ℂ))ᴴ * fromCols Q (0 : Matrix l p ℂ) :=
-  Ptn.Analysis.partial_isometry_pad Q T hQ
-
-/-! ### Non-vacuity: chain 0-1-2-3 canonicalised at 1; star -/
-
-example :
-    let dist : Dist := [(1, 0), (0, 1), (2, 1), (3, 2)]
-    let nbrs : Nat → List Nat := fun n => match n with | 0 => [1] | 1 => [0, 2] | 2 => [1, 3] | _ => [2]
-    canonOps dist nbrs = [⟨3, 2⟩, ⟨0, 1⟩, ⟨2, 1⟩] ∧
-    (∀ o ∈ canonOps dist nbrs, key dist o.target < key dist o.node) ∧
-    (dist.map (·.1)).Nodup := by decide
-example : moveOps [1, 2, 3] = [⟨1, 2⟩, ⟨2, 3⟩] := by decide
-
-end Ptn.C03
+import Ptn.C03.Core
+import Ptn.C03.Tree
+/-! Property theorems for C03.  `Core.lean`: gauge machine for arbitrary distance tables + the
+Mathlib instances.  `Tree.lean`: `canon_gauge_tree` — for every well-formed tree and every centre
+the hypotheses of `canon_gauge` hold for the distance table of the C17 model, so every non-centre
+node ends recorded as pointing to the first hop of its path to the centre. -/
